@@ -75,13 +75,26 @@ def run_case(case):
             obs["sets"]["refused_names"] = [nm]
             return obs
         r = identifiers(conv["out"])
-        if r is None:
-            obs["nontrivial"] = False
-            obs["counters"]["unparseable_output"] = 1
-            return obs
-        ids, inf, main = r
         c = canon(nm).lower()
         expected = {c, c + "$", "arr_" + c, "arr_" + c + "$", "q"}
+        if r is None:
+            if canon(nm) not in B09_RESERVED2:
+                obs["nontrivial"] = False
+                obs["counters"]["unparseable_output"] = 1
+                return obs
+            # the name is a BASIC09 reserved word, so the reference parser rejects the text; identity is then
+            # read off lexically: every identifier-like token built on the name must be one of the four expected
+            import re
+
+            body = "\n".join(ln for ln in conv["out"].split("\n")
+                             if not (ln.lower().startswith(("type ", "dim display", "dim play", "dim erno", "play.", "erno", "base ")) or "_ecb_start" in ln))
+            body = re.sub(r'"[^"]*"', '""', body)
+            toks = set(t.lower() for t in re.findall(r"[A-Za-z_][A-Za-z0-9_]*\$?", body))
+            ids = {t for t in toks if t.startswith(c) or t.startswith("arr_" + c)} | {"q"}
+            ids = {t for t in ids if t in expected or len(t.rstrip("$").replace("arr_", "")) <= 4}
+            obs["counters"]["lexical_identity_checks"] = 1
+        else:
+            ids, inf, main = r
         user = {i for i in ids if not (i in GENERATED or i.startswith("tmp_") or i in ("display", "play"))}
         obs["counters"]["identifiers_checked"] = len(user)
         extra = user - expected
@@ -146,9 +159,11 @@ def cases(tier, seed):
     second = letters + string.digits
     names = list(letters) + [a + b for a in letters for b in second]
     for i, nm in enumerate(names):
-        if nm in B09_RESERVED2:
-            continue
         yield {"kind": "name", "name": nm, "init": i % 2 == 0, "sample": i % 300 == 5}
+    for nm in sorted(B09_RESERVED2):
+        # longer spellings of the reserved two-letter names are the same Color BASIC variable
+        for tail in ("X", "9", "XY"):
+            yield {"kind": "name", "name": nm + tail, "init": False}
     rng = random.Random(seed * 31 + 9)
     n = 1500 if tier == "quick" else 40000
     for i in range(n):
